@@ -66,6 +66,10 @@ ReindexOK(e) ==
          SetOf(e.xf) = {NewRow(c) : c \in SetOf(e.base)} \ {-1}
     [] e.op = "colpos" ->
          SetOf(e.xf) = {NewCol(c) : c \in SetOf(e.base)} \ {-1}
+    [] e.op = "colposvec" ->   \* one set of column positions per column
+         /\ Len(e.xf) = Len(Tr.cx)
+         /\ \A q \in 1..Len(Tr.cx) :
+              SetOf(e.xf[q]) = {NewCol(c) : c \in SetOf(e.base[ColSrc(q)])} \ {-1}
     [] e.op = "colposmat" ->   \* a matrix whose cells are sets of column positions
          /\ Len(e.xf) = Len(Tr.rx)
          /\ \A p \in 1..Len(e.xf) :
